@@ -13,19 +13,19 @@ type rbcModel struct {
 	m   *Module
 	fns []*ssa.Function
 
-	receiver                                  *types.Named
-	idSet                                     *types.Named
-	fSelfID, fN, fFwd, fAck                   *types.Var
-	fReception, fPinned, fEquiv               *types.Var
-	fEntryM, fEntryIDSet                      *types.Var
-	fRecSender, fRecDigest, fRecRound         *types.Var
-	receive                                   *ssa.Function
-	entries                                   map[*ssa.Function]bool
-	inserts                                   []*ssa.MapUpdate
-	handovers                                 []ssa.CallInstruction
-	bcastHandovers, p2pHandovers              []ssa.CallInstruction
-	ackInvokes                                []ssa.CallInstruction
-	paramM, paramFrom                         *ssa.Parameter
+	receiver                          *types.Named
+	idSet                             *types.Named
+	fSelfID, fN, fFwd, fAck           *types.Var
+	fReception, fPinned, fEquiv       *types.Var
+	fEntryM, fEntryIDSet              *types.Var
+	fRecSender, fRecDigest, fRecRound *types.Var
+	receive                           *ssa.Function
+	entries                           map[*ssa.Function]bool
+	inserts                           []*ssa.MapUpdate
+	handovers                         []ssa.CallInstruction
+	bcastHandovers, p2pHandovers      []ssa.CallInstruction
+	ackInvokes                        []ssa.CallInstruction
+	paramM, paramFrom                 *ssa.Parameter
 }
 
 func buildRBCModel(c *Ctx) *rbcModel {
@@ -86,6 +86,7 @@ func buildRBCModel(c *Ctx) *rbcModel {
 		}
 	}
 	r.ackInvokes = invokesOf(r.fns, "Ack")
+	setQuorumForms(r)
 	return r
 }
 
@@ -163,3 +164,41 @@ func (r *rbcModel) senderOfReception(sc SiteCtx, key ssa.Value) ssa.Value {
 }
 
 func (r *rbcModel) isSelfID(v ssa.Value) bool { return isLoadOfField(v, r.fSelfID) }
+
+// ackPathFact: the fact says the message is an acknowledgement (its Ack() digest is non-empty).
+func (r *rbcModel) ackPathFact(f Fact) bool {
+	x, isLen := lenOperand(strip(f.X))
+	if !isLen || !r.isAckDigest(x) {
+		return false
+	}
+	k, isK := constInt(f.Y)
+	if !isK {
+		return false
+	}
+	return (f.Op == token.GTR && k == 0) || (f.Op == token.NEQ && k == 0) || (f.Op == token.GEQ && k == 1)
+}
+
+// registrationSites: where Receive (with its transparent helpers) registers a voucher: a call of a
+// function that reaches a voucher insertion / hand-over, or such an insertion written in place.
+func (r *rbcModel) registrationSites() []ssa.Instruction {
+	var out []ssa.Instruction
+	for _, in := range instrsDeep(r.receive) {
+		if mu, ok := in.(*ssa.MapUpdate); ok {
+			for _, x := range r.inserts {
+				if x == mu {
+					out = append(out, in)
+				}
+			}
+			continue
+		}
+		ci, ok := in.(ssa.CallInstruction)
+		if !ok || isHelperCall(in) != nil {
+			continue // a transparent helper's body is part of this listing
+		}
+		cal := staticCallee(ci.Common())
+		if cal != nil && r.reachesSink(cal, map[*ssa.Function]bool{}) {
+			out = append(out, in)
+		}
+	}
+	return out
+}
